@@ -429,6 +429,31 @@ impl Env {
                 let x1 = r.next().map(|d| fmt_data(&d)).unwrap_or("none".into());
                 format!("{};x={}", fmt_list(&v), x1)
             }
+            "iterb" => {
+                // iterb T Hbase Hparent: walk the parent's buckets() iterator and keep the Bucket
+                // handles it yields as Hbase, Hbase+1, ... (in iteration order)
+                let t = num(1);
+                let hbase = num(2);
+                let hp = num(3);
+                let mut got: Vec<(String, Bucket<'static, 'static>)> = Vec::new();
+                if hp == 0 {
+                    let tx = self.tx_ref(t);
+                    for (n, b) in tx.buckets() {
+                        got.push((format!("B:{}", hex(n.name())), b));
+                    }
+                } else {
+                    let b = &self.buckets.get(&hp).expect("unknown handle").1;
+                    let b: &'static Bucket<'static, 'static> = unsafe { &*(b as *const Bucket<'static, 'static>) };
+                    for (n, sub) in b.buckets() {
+                        got.push((format!("B:{}", hex(n.name())), sub));
+                    }
+                }
+                let names: Vec<String> = got.iter().map(|x| x.0.clone()).collect();
+                for (i, (_, b)) in got.into_iter().enumerate() {
+                    self.buckets.insert(hbase + i as u64, (t, b));
+                }
+                fmt_list(&names)
+            }
             "buckets" => {
                 let b = &self.buckets.get(&num(2)).expect("unknown handle").1;
                 let v: Vec<String> = b.buckets().map(|(n, _)| format!("B:{}", hex(n.name()))).collect();
